@@ -187,7 +187,7 @@ func (s *keySys) Apply(ev int) (string, string, string) {
 
 func (s *keySys) Key() string {
 	now := vtime.Get()
-	d := cache.GetDispatcher(s.cfg.Caches[0].Name)
+	d := cache.GetDispatcher(s.cfg.Servers[0].Cache)
 	k := "absent"
 	if hc, ok := d.VerifPeek([]byte("GET a.com /k1")); ok {
 		sn := hc.VerifSnapshot()
